@@ -1,9 +1,12 @@
 CHECK = {
-    "mode": "inpkg", "pkg": "server", "files": ["c19_prompt_test.go"],
+    "mode": "inpkg", "pkg": "server", "files": ["c19_prompt_test.go", "c19_routes_test.go"],
     "level": "exploration",
     "engine": "chatprompt",
     "technique": "property-based testing (rapid, shrinking) of server.chatPrompt against an independent re-computation of the "
-                 "retained run and a delimiter-grammar parse of the returned prompt",
+                 "retained run and a delimiter-grammar parse of the returned prompt; the same reference applied at route level: "
+                 "models created per case through POST /api/create (template, SYSTEM, MESSAGE history, PARAMETER num_ctx, optional "
+                 "projector), conversations sent through the real gin router and Scheduler to POST /api/chat and POST /api/generate, "
+                 "and the (prompt, images) that reach a recording fake runner judged against the reference of the effective conversation",
     "level_text": "Randomised exploration of conversations x context lengths x template styles x model kinds with an exact "
                   "structural oracle: the returned prompt is parsed with the template's delimiter grammar and compared message "
                   "by message with the harness's own model of the template layer (collation, system hoisting, legacy turns); "
@@ -14,14 +17,30 @@ CHECK = {
                   "template on (system messages before i ++ msgs[i:]) and adding 768 (clip projector) / 1 (mllama projector) / 0 "
                   "(no projector) per image, i.e. the cost model of prompt.go is taken as given. Maximality of the retained run is "
                   "asserted only for cases whose counts are monotone in i (others count as trivial). Image tag position inside a "
-                  "message is not asserted, only 'exactly once, right index'.",
+                  "message is not asserted, only 'exactly once, right index'. "
+                  "TestC19Routes uses the unexported Scheduler.newServerFn/getGpuFn/getCpuFn and Server.sched (as the repository's own "
+                  "routes_generate_test.go does); requests reach the router in process (httptest recorder, no sockets), stream=false only; "
+                  "the fake runner's Tokenize is the reference's whitespace tokenizer. Its effective conversation is derived from the "
+                  "documentation (modelfile.md MESSAGE/SYSTEM, api.md `system` override, faq.md num_ctx precedence) and the repository's "
+                  "TestGenerateChat: [SYSTEM unless the request opens with a system message] ++ MESSAGEs ++ request messages. The mllama "
+                  "family, tools, raw/suffix/request-template generate and the OpenAI-compatible endpoints are not sent through the router.",
     "design_ref": "DESIGN.md section 3 C19",
     "targets": [{"name": "TestC19ChatPrompt",
                  "quick": {"cases": 6000, "shards": 2, "soft_s": 35},
-                 "thorough": {"cases": 160000, "shards": 16, "soft_s": 330}}],
+                 "thorough": {"cases": 160000, "shards": 10, "soft_s": 330}},
+                # the same reference, judged on what POST /api/chat and POST /api/generate hand to the runner
+                {"name": "TestC19Routes",
+                 "quick": {"cases": 1500, "shards": 2, "soft_s": 40},
+                 "thorough": {"cases": 40000, "shards": 6, "soft_s": 330}}],
     "floors": {"dropped_messages": 0.3, "image_on_dropped": 0.08, "image_on_retained": 0.15, "system_before_cut": 0.1,
                "system_after_cut": 0.08, "everything_fits": 0.05, "only_last_fits": 0.05, "cut_inside": 0.2,
-               "boundary_exact_fit": 0.08, "boundary_one_token_short": 0.08, "collated_messages": 0.1},
+               "boundary_exact_fit": 0.08, "boundary_one_token_short": 0.08, "collated_messages": 0.1,
+               # TestC19Routes (classes of the shared reference carry the prefix rt_ there)
+               "model_messages_present": 0.4, "model_system_prepended": 0.2, "request_starts_with_system": 0.25,
+               "request_system_replaces_model_system": 0.15, "request_system_with_model_messages": 0.12,
+               "rt_image_on_dropped": 0.07, "rt_image_on_retained": 0.25, "rt_cut_inside": 0.12, "rt_system_before_cut": 0.2,
+               "generate_with_images": 0.07, "generate_context": 0.03, "num_ctx_source_matters": 0.25,
+               "parallel_2": 0.2, "parallel_slots_would_matter": 0.1, "rt_tmpl_commandr": 0.07, "rt_model_clip": 0.25},
     "rule": "rapid-generated conversations of 1-12 messages (roles system/user/assistant/tool in any order; 0-6 words per message "
             "from an alphabet without template delimiters, a word may be the literal placeholder [img], some messages repeated to 150 words; 0-2 "
             "images on user messages, rarely on assistant/tool messages), context length absolute (1..100000) or relative to the token count of a drawn suffix (-3..+5), templates "
@@ -30,7 +49,17 @@ CHECK = {
             "+ grammar parse of the prompt: msgs[n:] in order modulo collation, every system message before n, last message "
             "always, each image of msgs[n:] exactly once as [img-k] with k its index in the returned list, exactly those images "
             "returned in order. Non-trivial = monotone counts, at least one non-system message dropped and at least one system "
-            "message or image in the conversation; distinct = distinct hash of the generated case.",
+            "message or image in the conversation; distinct = distinct hash of the generated case. "
+            "TestC19Routes: per case a model (one of the five templates or the repository's command-r template; SYSTEM of 1-3 words in 60 %; "
+            "0-3 MESSAGE entries of roles user/assistant/system; plain or with a projector layer) created through POST /api/create, then either "
+            "(80 %) POST /api/chat with 1-8 messages drawn as above (the opening message forced to role system in 40 %), num_ctx drawn as above "
+            "relative to the effective conversation and given in the request options / as PARAMETER num_ctx / in both with different values "
+            "(request wins) / not at all (2048), OLLAMA_NUM_PARALLEL in {unset, 1, 2}; or (20 %) POST /api/generate with a prompt, 0-2 images, "
+            "optional `system`, optional deprecated `context`. Oracle = the same reference on the effective conversation "
+            "([SYSTEM unless the request opens with a system message] ++ MESSAGEs ++ request messages; generate: [request system, else SYSTEM] ++ "
+            "MESSAGEs ++ one user message per image ++ prompt) against the llm.CompletionRequest the fake runner received: prompt structure, "
+            "exactly the images of retained messages with ID = tag index and the bytes the client sent, exactly one Completion call, HTTP 200. "
+            "Non-trivial there = the reference's rule, or the model has a MESSAGE history or SYSTEM, or a generate request carries images.",
     "assumptions": [
         "legacy (.System/.Prompt/.Response) templates are not given tool-role messages: the legacy path of template.Execute has no "
         "case for them (they are not rendered, and a tool message between two user messages makes the second overwrite the first)",
@@ -41,5 +70,13 @@ CHECK = {
         "the token cost of an image is the one prompt.go uses (768 / 1 / 0 without projector); image tags added to the final prompt "
         "are not part of the fit computation (as in prompt.go)",
         "tools are not passed (nil)",
+        "route level: the effective conversation is [SYSTEM, unless the first message of the request has role system] ++ MESSAGE history ++ "
+        "request messages (docs/modelfile.md, docs/api.md `system` 'overrides what is defined in the Modelfile', the repository's "
+        "TestGenerateChat); a MESSAGE of role system is part of the history and does not suppress SYSTEM",
+        "route level: the context length used for truncation is the request's options.num_ctx, else the model's PARAMETER num_ctx, else "
+        "2048 (docs/faq.md; OLLAMA_CONTEXT_LENGTH unset), independent of OLLAMA_NUM_PARALLEL; MESSAGE entries carry no images",
+        "route level: /api/generate cases fit the default context entirely (this tree does not truncate generate prompts; the statement "
+        "is silent); with the deprecated `context` field the prompt may or may not repeat the MESSAGE history after the detokenized "
+        "context (both accepted, counted), and a context that does not open the prompt is only counted",
     ],
 }
